@@ -555,6 +555,52 @@ def soup(rng, n):
     return out
 
 
+ODD_MEMBERS = ['1e3', '2E1', '1e0', '0.1', '1.', '0.', '.5', '1.0e-3', '4294967296', '99999999999999999999', '1_000', '0x1f', '0b1', '0o7', '1u8',
+               '1usize', '1f32', '-1', 'r#type', 'self', 'Self', '_', "'a", '"s"', "b'x'", 'true', '00', '01', '1 .0', '0.0.0', '1.2.3', 'x.1e3', '()', '[0]']
+
+
+def odd_member_cases(rng, n):
+    """otherwise ordinary inputs in which ONE member position (a child path segment, a #[child_parents] key, a #[ghosts] path or
+    field, a rename, a nested parent member, a tuple index) is an unusual token: exponent / dotted floats, huge or suffixed or
+    radix integers, raw identifiers, keywords, literals of other kinds.  Such inputs must be diagnosed, never panic (C16)."""
+    out = []
+    for i in range(n):
+        odd = rng.choice(ODD_MEMBERS)
+        slot = rng.randrange(10)
+        named = rng.random() < 0.6
+        tn = rng.choice(['map', 'into', 'from', 'owned_into', 'into_existing', 'try_map', 'from_ref'])
+        attrs = [trait_attr(tn, 'A', rng.choice(['', '', ' as {}', ' as ()']))]
+        fa, fb = [], []
+        if slot == 0:
+            attrs.append(Attr('child_parents', 'base: Base')); fa.append(Attr('child', 'base.%s' % odd))
+        elif slot == 1:
+            attrs.append(Attr('child_parents', 'base: Base, base.%s: Inner' % odd)); fa.append(Attr('child', 'base'))
+        elif slot == 2:
+            attrs.append(Attr('child_parents', 'base: Base, base.%s: Inner' % odd)); attrs.append(Attr('ghosts', 'base.%s@g: { 1 }' % odd)); fa.append(Attr('child', 'base'))
+        elif slot == 3:
+            attrs.append(Attr('ghosts', '%s: { 1 }' % odd))
+        elif slot == 4:
+            fa.append(Attr(rng.choice(['map', 'into', 'from', 'map_ref']), rng.choice(['%s', '%s, ~ + 1', '%s, { ~ }']) % odd))
+        elif slot == 5:
+            fa.append(Attr('parent', rng.choice(['%s', 'x, %s', '[map(%s)] x', '[parent(%s)] inner: Inner', '[parent(u)] %s: Inner', '%s: T']) % odd))
+        elif slot == 6:
+            fa.append(Attr('as_type', rng.choice(['%s, i64', '%s']) % odd))
+        elif slot == 7:
+            fa.append(Attr('child', odd)); attrs.append(Attr('child_parents', '%s: Base' % odd))
+        elif slot == 8:
+            attrs.append(Attr('ghosts', 'base@%s: { 1 }' % odd)); attrs.append(Attr('child_parents', 'base: Base'))
+        else:
+            fa.append(Attr('ghost', rng.choice(['%s', '{ %s }']) % odd))
+        fields = [Field('a' if named else None, 'i32', fa), Field('b' if named else None, 'i16', fb)]
+        rng.shuffle(attrs)
+        if rng.random() < 0.25 and slot not in (0, 1, 2, 7, 8):      # (a #[child] on a payload field has no #[child_parents] to go with: finding F-16d)
+            vs = [Variant('V', 'named' if named else 'tuple', fields, []), Variant('W')]
+            out.append(Item('enum', 'E', 'named', '', [a for a in attrs if a.name not in ('child_parents',)], vs, {'gen': 'odd_member', 'odd': odd, 'slot': slot}))
+        else:
+            out.append(Item('struct', 'S', 'named' if named else 'tuple', '', attrs, fields, {'gen': 'odd_member', 'odd': odd, 'slot': slot}))
+    return out
+
+
 # ---------------------------------------------------------------------------------------------
 # metamorphic transforms
 # ---------------------------------------------------------------------------------------------
@@ -591,6 +637,28 @@ def respell(item, rng, mode):
                 i = j
         lst[:] = new
     return it
+
+
+def toggle_parens(item):
+    """C13 (OptionalParenthesizedTokenStream): an instruction without arguments written `name` <-> `name()`, bare or inside #[o2o(..)]"""
+    it = item.clone()
+    changed = False
+    def flip(a):
+        nonlocal changed
+        if isinstance(a, Group):
+            return Group([flip(x) for x in a.attrs]) if hasattr(a, 'attrs') else a
+        if a.name in ('o2o', 'doc') or a.delim != '()' or a.ded is not None:
+            return a
+        if a.args is None:
+            changed = True
+            return a.clone(args='')
+        if a.args == '':
+            changed = True
+            return a.clone(args=None)
+        return a
+    for lst in all_attr_lists(it):
+        lst[:] = [flip(a) for a in lst]
+    return it if changed else None
 
 
 def unspell(item):
